@@ -60,7 +60,10 @@ Bounded == Mode \in {"gen", "sim", "mcb"}   \* bound time and events (histories 
 (* shift, so the quotient graph is finite and is explored WITHOUT a bound on time or events in  *)
 (* Mode "mc"; in "gen" the bounds only limit the length of the emitted histories.               *)
 RelS(s) == IF s.arr = None THEN <<s.ok>> ELSE <<s.ok, s.q, s.arr - s.ts, Min2(now - s.arr, MaxAge)>>
-RelK(k) == <<IF k.until = None THEN None ELSE Max2(k.until - now, 0), k.dur>>
+\* an expired block is remembered for ExpMem more seconds (then all alike): histories in which the next
+\* failure arrives LATER than the previous expiry are emitted, not only the shortest one (at the expiry)
+ExpMem == 2
+RelK(k) == <<IF k.until = None THEN None ELSE Max2(k.until - now, 0 - ExpMem), k.dur>>
 View == [b \in Bats |-> <<RelS(bat[b]), RelS(inv[b]), tmr[b].bt - now, tmr[b].it - now, late[b],
                           RelK(blk[b]), st[b], Min2(nf[b], 4), rst[b], fresh[b]>>]
 
